@@ -42,7 +42,7 @@ BUDGET = {"quick": 85, "thorough": 900}
 ROUNDS = {"thorough": 3}
 FLOORS = {"transitions": {"quick": 4000, "thorough": 40000}, "accepted": {"quick": 800, "thorough": 8000}, "rejected": {"quick": 800, "thorough": 8000},
           "hastings_checked": {"quick": 3000, "thorough": 30000}, "logger_rows": {"quick": 2000, "thorough": 20000}, "tune_calls": {"quick": 1500, "thorough": 15000},
-          "operator_types": 5, "momentum_law_cases": 6, "reference_trajectories": {"quick": 1000, "thorough": 10000}, "nonfinite_proposals": {"quick": 40, "thorough": 400}, "tune_calls_adaptive_step_size": {"quick": 150, "thorough": 1500}, "adaptive_step_size_modes": 2, "resumed_runs": 2, "hook_records": {"quick": 4000, "thorough": 40000},
+          "operator_types": 5, "momentum_law_cases": 6, "hmc_retried_trajectories": {"quick": 4, "thorough": 40}, "reference_trajectories": {"quick": 1000, "thorough": 10000}, "nonfinite_proposals": {"quick": 40, "thorough": 400}, "tune_calls_adaptive_step_size": {"quick": 150, "thorough": 1500}, "adaptive_step_size_modes": 2, "resumed_runs": 2, "hook_records": {"quick": 4000, "thorough": 40000},
           "accepted:ScalerOperator": 30, "rejected:ScalerOperator": 30, "accepted:SlidingWindowOperator": 30, "rejected:SlidingWindowOperator": 30,
           "accepted:DirichletOperator": 30, "rejected:DirichletOperator": 30, "accepted:HMCOperator": 30, "rejected:HMCOperator": 30,
           "accepted:GMRFPiecewiseCoalescentBlockUpdatingOperator": 30, "rejected:GMRFPiecewiseCoalescentBlockUpdatingOperator": 30}
@@ -111,7 +111,11 @@ def target_toy(case, rng):
             {"id": "joint", "type": "JointDistributionModel", "distributions": ["dx", "dy", "ds", "dz", "dr", "dbig", "dw"]}]
     extra_ops = [op("op.scale.r", "ScalerOperator", ["r"], rng, case["adapt"], scaler=float(rng.uniform(0.3, 0.9))),
                  op("op.slide.big", "SlidingWindowOperator", ["big"], rng, case["adapt"], width=1.0),
-                 op("op.scale.w", "ScalerOperator", ["w"], rng, True, scaler=0.9)]
+                 op("op.scale.w", "ScalerOperator", ["w"], rng, True, scaler=0.9),
+                 # a scaler on a real-valued parameter (entries of either sign), and HMC directly on a positive parameter without a
+                 # transform: trajectories that cross zero fail and are tried again with another momentum
+                 op("op.scale.x", "ScalerOperator", ["x"], rng, case["adapt"], scaler=float(rng.uniform(0.4, 0.9))),
+                 hmc_op("op.hmc.y", "joint", ["y"], 2, rng, False, dense=False, eps=float(rng.uniform(0.3, 0.7)), steps=int(rng.integers(2, 6)))]
     ops = [op("op.slide", "SlidingWindowOperator", ["x"], rng, case["adapt"], width=float(gm.loguniform(rng, 0.2, 3))),
            op("op.scale", "ScalerOperator", ["y"], rng, case["adapt"], scaler=float(rng.uniform(0.3, 0.9))),
            op("op.dirichlet", "DirichletOperator", ["s"], rng, case["adapt"], scaler=float(gm.loguniform(rng, 5, 200))),
@@ -616,6 +620,11 @@ def check_records(case, dic, shadow, spec, records, meta, V, C, torch):
                     V.append(tt.viol("C15:hmc-proposal-not-the-leapfrog-map-of-the-current-target", "%s: proposed point differs from an independent leapfrog integration of the current target from the same start and momentum (max |dq| %.3g, max |dp| %.3g): the Hastings term K0-K1 is not the proposal ratio" % (
                         where, float((qlib - qv).abs().max()), float((plib - pv).abs().max())), **detail))
                     return
+        if math.isnan(h["hastings_ratio"]):
+            V.append(tt.viol("C15:hastings-ratio:not-a-number:" + tname, "%s: step() returned NaN as Hastings ratio (MCMC.run turns that into an acceptance probability of one)" % where, **detail))
+            return
+        if tname == "HMCOperator" and len(r.get("momenta0", [])) > 1:
+            C["hmc_retried_trajectories"] = C.get("hmc_retried_trajectories", 0) + 1
         if ref_hr is not None and not inf_hr:
             C["hastings_checked"] += 1
             tol = 1e-6 if tname.startswith("GMRF") else 1e-9
